@@ -100,6 +100,10 @@ func (t *ImmutableTree) VerifyNonMembership(proof *ics23.CommitmentProof, key []
 func (t *ImmutableTree) createExistenceProof(key []byte) (*ics23.ExistenceProof, error) {
 	t.Hash()
 	path, node, err := t.root.PathToLeaf(t, key, t.version+1)
+	if node == nil {
+		// the walk failed before reaching a leaf (a node could not be fetched)
+		return nil, err
+	}
 	nodeVersion := t.version + 1
 	if node.nodeKey != nil {
 		nodeVersion = node.nodeKey.version
